@@ -201,6 +201,21 @@ def run_system(sysd, tier, res, fsets=None):
                                 again = ts.fsolve(F.copy(), freq.copy(), incrb=incrb, rf_disp_only=rdo)
                                 if not all(np.array_equal(getattr(again, nm), getattr(sol, nm)) for nm in "dva"):
                                     out.append((case, "%s: solving again on the same instance (after a different fsolve) gives a different answer" % tag))
+                            if incrb == "dva" and solver in ("SolveUnc", "FreqDirect"):
+                                # inputs are never modified, whatever their memory layout / dtype
+                                for lay, Fx in (("F-order complex", np.asfortranarray(F.astype(complex))), ("F-order real", np.asfortranarray(F.real.copy())),
+                                                ("C-order real", np.ascontiguousarray(F.real.copy()))):
+                                    snap, fsnap = Fx.copy(), freq.copy()
+                                    fq = freq.copy()
+                                    solx = ts.fsolve(Fx, fq, incrb=incrb, rf_disp_only=rdo)
+                                    if not (np.array_equal(Fx, snap) and np.array_equal(fq, fsnap)):
+                                        out.append((case, "%s: fsolve modified the caller's force/frequency array (%s input)" % (tag, lay)))
+                                    elif lay == "F-order complex" and not all(np.allclose(getattr(solx, nm), getattr(sol, nm), rtol=1e-12, atol=1e-300) for nm in "dva"):
+                                        out.append((case, "%s: a Fortran-ordered force matrix gives a different answer than the C-ordered one" % tag))
+                            if solver == "SolveUnc(h)" and incrb == "dva" and not rdo:
+                                m_ = _call_history(ode, args, rfarg, F, freq, n)
+                                if m_:
+                                    out.append((case, "%s: %s" % (tag, m_)))
                     except Exception as e:  # noqa
                         out.append((case, "%s: fsolve raised %r" % (tag, e)))
                         continue
@@ -215,6 +230,33 @@ def run_system(sysd, tier, res, fsets=None):
                     refs[solver] = sol
                 res.ev("%s/%s/%s/incrb-%s/rdo%d" % (sysd["name"], fsname, fname, incrb, rdo))
     return out
+
+
+def _call_history(ode, args, rfarg, F, freq, n):
+    """K2 on one SolveUnc(h) object: EVERY sequence of up to 3 calls over {fsolve(F), tsolve(Ft), fsolve(F2)};
+    each result must equal the same call on a fresh object"""
+    Ft = np.cos(np.arange(n)[:, None] * 0.7 + np.arange(6)[None, :] * 0.9)
+    F2 = F[:, ::-1].copy() * (0.5 + 0.25j)
+    f2 = freq[::-1].copy() + 0.21
+    events = {
+        "fsolve(F)": lambda ts: ts.fsolve(F.copy(), freq.copy()),
+        "tsolve": lambda ts: ts.tsolve(Ft.copy()),
+        "fsolve(F2)": lambda ts: ts.fsolve(F2.copy(), f2.copy()),
+    }
+    mk = lambda: ode.SolveUnc(*args, h=0.01, rf=rfarg)
+    fresh = {}
+    for k, ev in events.items():
+        sol = ev(mk())
+        fresh[k] = [np.array(getattr(sol, nm)) for nm in "dva"]
+    names = list(events)
+    for L in (2, 3):
+        for seq in itertools.product(names, repeat=L):
+            ts = mk()
+            for step, k in enumerate(seq):
+                sol = events[k](ts)
+                if not all(np.array_equal(getattr(sol, nm), w) for nm, w in zip("dva", fresh[k])):
+                    return "call %d of the history %s on one solver object (%s) differs from the same call on a fresh object" % (step + 1, list(seq), k)
+    return None
 
 
 def modal_to_sys(modes, name):
@@ -357,11 +399,18 @@ def run_solvepsd(tier, res):
     t_frc = np.array([[1.0, 0.5], [0.0, 2.0], [-1.0, 1.0], [0.5, 0.0]])
     drms = [np.array([[1.0, 0, 2.0, 0], [0, 1.0, 0, -1.0]]), np.array([[0.5, 1.0, 0, 0], [0, 0, 1.0, 1.0]]),
             np.array([[2.0, 0, 0, 1.0], [1.0, 1.0, 1.0, 0]]), np.array([[1.0, -1.0], [0.0, 3.0]])]
-    for pattern in itertools.product((0, 1), repeat=4):
+    variants = {"dense": (forcepsd, t_frc, drms[3])}
+    # a force that acts on no mode (null column of t_frc) but is recovered directly through drmf
+    variants["nullcol"] = (np.vstack((forcepsd[:1], [[0.7, 0.2, 1.1, 0.6, 0.9]], forcepsd[1:])), np.column_stack((t_frc[:, 0], np.zeros(4), t_frc[:, 1])),
+                           np.array([[1.0, 2.5, -1.0], [0.0, -1.5, 3.0]]))
+    for vname, pattern in itertools.product(variants, itertools.product((0, 1), repeat=4)):
         if not any(pattern):
             continue
+        forcepsd, t_frc, drmf = variants[vname]
+        nfrc = forcepsd.shape[0]
+        drms = drms[:3] + [drmf]
         for rbduf, elduf, solver, incrb in itertools.product((1.0, 1.2), (1.0, 1.2), ("SolveUnc", "FreqDirect"), ("dva", "a")):
-            case = dict(part="solvepsd", pattern=list(pattern), rbduf=rbduf, elduf=elduf, solver=solver, incrb=incrb)
+            case = dict(part="solvepsd", variant=vname, pattern=list(pattern), rbduf=rbduf, elduf=elduf, solver=solver, incrb=incrb)
             quad = tuple(drms[i] if pattern[i] else None for i in range(4))
             try:
                 fs = (ode.SolveUnc if solver == "SolveUnc" else ode.FreqDirect)(m, b, k, rf=[3])
@@ -389,7 +438,7 @@ def run_solvepsd(tier, res):
                     H += quad[3][:, i : i + 1] * np.ones((1, len(freq)))
                 want += forcepsd[i] * np.abs(H) ** 2
             wrms = np.array([math.sqrt(sum((freq[q + 1] - freq[q]) * (want[r, q] + want[r, q + 1]) / 2 for q in range(len(freq) - 1))) for r in range(2)])
-            res.ev("solvepsd/%s/%s/%s" % ("".join(map(str, pattern)), solver, incrb))
+            res.ev("solvepsd/%s/%s/%s/%s" % (vname, "".join(map(str, pattern)), solver, incrb))
             for jj in range(2):
                 e = np.abs(psd[jj] - want).max() / np.abs(want).max()
                 er = np.abs(rms[jj] - wrms).max() / np.abs(wrms).max()
